@@ -80,6 +80,32 @@ def one(rng):
     return conn_case(B, 1, segs, scripts, rs, ws, rng.choice([0, 1])), tags
 
 
+def huge_buffer_case(rng):
+    """Config::buffer_size of 64 KiB and more (the documentation recommends 10s to 100s of KiB for uploads), maximum-size Stdin records and
+    a transport that hands over as much as the buffer takes: single reads leave 2^16 and more unparsed bytes in the buffer, in the
+    middle of a record payload (the first transport read ends inside the first record, so the next one starts with an empty buffer)"""
+    B = rng.choice([65536, 65536, 131072])
+    rid = rng.choice([1, 9])
+    role = rng.choice([1, 1, 3])
+    n = rng.choice([2, 3])
+    data = [rng.randrange(256) for _ in range(65535 * n - rng.choice([0, 1, 500]))]
+    recs = flat(minimal_preamble(rid, role, flags=0, pairs=rand_pairs(rng, 1, 3)))
+    body = []
+    for i in range(0, len(data), 65535):
+        body += record(STDIN, rid, data[i:i + 65535], rng.choice([0, 0, 1]))
+    body += record(STDIN, rid, [], 0)
+    if role == 3:
+        body += record(DATA, rid, [5, 6, 7], 0) + record(DATA, rid, [], 0)
+    cut = 8 + rng.choice([0, 1, 100, 1000])            # the first transport read: preamble, the first Stdin header and a few payload bytes
+    first = rng.choice([1000, 70000])
+    # (bounded reads, no read_to_end: the model's read_to_end is quadratic in the stream length)
+    h = [("read", first)] + [("read", rng.choice([70000, 200000])) for _ in range(n + 4)] + [("read", 1000)]
+    if role == 3:
+        h += [("set", DATA), ("read", 1000), ("read", 1000)]
+    h.append(("ret", 0, 0))
+    return conn_case(B, 1, [(0, 0, recs + body)], [h], [len(recs) + cut], [], rng.choice([0, 1])), ["reads", "mixed", "huge-buffer"]
+
+
 def direct_request_case(rng):
     """the async Request built BY HAND through the public constructors (the embedding application parses the preamble itself), for a
     Filter optionally with the Data stream selected on the stream parser before wrapping: the request is writeable at construction
@@ -107,6 +133,8 @@ def gen_cases(rng, tier):
         yield direct_request_case(rng)
     for _ in range(30 if tier == "quick" else 1000):
         yield gate_probe_case(rng)
+    for _ in range(6 if tier == "quick" else 40):
+        yield huge_buffer_case(rng)
 
 
 def nontrivial(line, tags):
@@ -114,7 +142,7 @@ def nontrivial(line, tags):
 
 
 def min_classes(tier):
-    return {"mixed": 400, "switch": 400, "zero-read": 200, "gate-probe": 30, "direct-request": 200, "preselected": 40, "leaked-writer": 20}
+    return {"mixed": 400, "switch": 400, "zero-read": 200, "gate-probe": 30, "direct-request": 200, "preselected": 40, "leaked-writer": 20, "huge-buffer": 6}
 
 
 def oracle_direct(line, impl_line):
